@@ -114,7 +114,7 @@ def _worker_init(modname, tag):
     faulthandler.enable()
     try:
         import resource
-        lim = int(os.environ.get('VERIF_WORKER_AS_GB', '6')) << 30
+        lim = int(os.environ.get('VERIF_WORKER_AS_GB', '3')) << 30
         resource.setrlimit(resource.RLIMIT_AS, (lim, lim))
     except Exception:
         pass
